@@ -33,6 +33,7 @@ type selector struct {
 	Funcs string   `json:"funcs"` // regexp on function key
 	Kinds []string `json:"kinds"` // obligation kind prefixes: idx slice nil div make typeassert shift panic pre post inv-init inv-pres dec frame
 	Tag   string   `json:"tag"`   // for post/inv: clause tag that must be present ("" = any)
+	TaggedOnly bool `json:"tagged_only"` // post obligations of untagged (infrastructure) clauses are left to the check that owns them
 	Exclude string `json:"exclude"` // regexp on function keys left out (with the reason given in the property file)
 	re    *regexp.Regexp
 	reEx  *regexp.Regexp
@@ -66,6 +67,9 @@ func (s *selector) match(o *Obl) bool {
 		}
 	}
 	if !ok {
+		return false
+	}
+	if s.TaggedOnly && kind == "post" && (o.Clause == nil || !contains(o.Clause.Tags, s.Tag)) {
 		return false
 	}
 	if s.Tag != "" && kind == "post" && o.Clause != nil && len(o.Clause.Tags) > 0 && !contains(o.Clause.Tags, s.Tag) {
